@@ -61,6 +61,39 @@ def run(ctx):
     r02b(ctx)
     r02c(ctx)
     r02d(ctx)
+    r02e(ctx)
+
+
+def r02e(ctx):
+    """size of the generated index vector: for every stack size n = 1..64 the two constructors leave exactly n cells in `pi`
+    (interval evaluation of the constructor for each concrete n, sa/drawinterp.py: loop bounds are concrete, draws are
+    intervals).  A stack secret built from fewer cells is not a bijection on {0..n-1}; a shortcut for 'nothing to permute'
+    that returns before the identity fill produces the empty secret for a one-card stack."""
+    from ..drawinterp import DrawInterp
+    from .. import evalx
+    prog = ctx.prog
+    SAMPLERS = ('tmcg_mpz_srandom_mod', 'tmcg_mpz_ssrandom_mod', 'tmcg_mpz_wrandom_mod')
+    n_ok = 0
+    for q in ('random_permutation_fast', 'random_rotation'):
+        f = prog.fn(q, 0)
+        npar, pip = f['params'][0], f['params'][1]
+        bad = None
+        try:
+            for n in range(1, 65):
+                di = DrawInterp(f, {npar['n']: n}, SAMPLERS).run()
+                got = di.vsize.get(pip['id'])
+                if got != n:
+                    bad = 'for n = %d the index vector has %s cells' % (n, got)
+                    break
+        except evalx.NotEvaluable as ex:
+            ctx.note('R02e', 'R02e:%s:size' % q, 'not evaluable by intervals: %s' % ex, f)
+            continue
+        n_ok += 1
+        if bad:
+            ctx.bad('R02e', 'R02e:%s:size' % q, '%s: the stack secret built from it is not a bijection on {0..n-1}' % bad, f)
+        else:
+            ctx.ok('R02e', 'R02e:%s:size' % q, 'exactly n cells for every n = 1..64', f)
+    ctx.floor('R02e', n_ok, 1)
 
 
 def r02d(ctx):
